@@ -241,6 +241,15 @@ func sign64(x int64) int {
 var selMemo sync.Map
 
 func parsedSel(s string) selector.Selector {
+	if strings.Contains(s, "-") {
+		// selectors with negative bounds are parsed afresh for every use: the reference must not share
+		// a parsed value that an evaluation could have rebased for one particular length
+		sel, err := selector.Parse(s)
+		if err != nil {
+			panic(err)
+		}
+		return sel
+	}
 	if v, ok := selMemo.Load(s); ok {
 		return v.(selector.Selector)
 	}
@@ -341,6 +350,7 @@ var c11AVals = []namedNode{
 	{"-", nil}, {"0", nInt(0)}, {"1", nInt(1)}, {"2", nInt(2)}, {"2^53-1", nInt(1<<53 - 1)}, {"int64-min", nInt(math.MinInt64)}, {"int64-max", nInt(math.MaxInt64)}, {"-1", nInt(-1)}, {"1.5", nFloat(1.5)}, {"1.0", nFloat(1.0)},
 	{"NaN", nFloat(math.NaN())}, {"+Inf", nFloat(math.Inf(1))}, {`"a"`, nStr("a")}, {`"ab"`, nStr("ab")}, {"true", nBool(true)}, {"null", nNull()},
 	{"[]", nList()}, {"[1]", nList(nInt(1))}, {"[1,2]", nList(nInt(1), nInt(2))}, {"[2,1]", nList(nInt(2), nInt(1))}, {"{}", nMap()},
+	{`"0"x1000+"7"`, nStr(strings.Repeat("0", 1000) + "7")}, {`"0"x1000`, nStr(strings.Repeat("0", 1000))},
 	// maps are unordered: the same entries inserted in either order, as a value and inside a list
 	{"{x:1,y:2}", nMap(kv{"x", nInt(1)}, kv{"y", nInt(2)})}, {"{y:2,x:1}", nMap(kv{"y", nInt(2)}, kv{"x", nInt(1)})}, {"{x:1,y:3}", nMap(kv{"x", nInt(1)}, kv{"y", nInt(3)})},
 	{"[{x:1,y:2}]", nList(nMap(kv{"x", nInt(1)}, kv{"y", nInt(2)}))},
@@ -446,7 +456,10 @@ func (c *c11Case) Weight() int {
 	return w
 }
 
-var c11Sels = []string{".a", ".b", ".m?", ".m", ".l", "."}
+// a wildcard followed by a long literal that keeps almost matching inside a long run
+var c11LongPat = "*" + strings.Repeat("0", 40) + "7"
+
+var c11Sels = []string{".a", ".b", ".m?", ".m", ".l", ".", ".l[-1:]"}
 
 func c11Atoms() []St {
 	var r []St
@@ -458,7 +471,7 @@ func c11Atoms() []St {
 		}
 	}
 	for _, sel := range c11Sels {
-		for _, pat := range []string{"a*", "*", "b", "a*a", "a*b", `a\*`} {
+		for _, pat := range []string{"a*", "*", "b", "a*a", "a*b", `a\*`, c11LongPat} {
 			r = append(r, St{Op: "like", Sel: sel, Lit: pat})
 		}
 	}
@@ -466,7 +479,7 @@ func c11Atoms() []St {
 }
 
 func c11AtomSub() *engine.Sub {
-	data := c11Data(nil, []string{"-", `"a"`, "1"}, []string{"-", "[1,2]"})
+	data := c11Data(nil, []string{"-", `"a"`, "1"}, []string{"-", "[1,2]", "[1]", "[2,1]", "[]"})
 	byName := map[string]c11Datum{}
 	for _, d := range data {
 		byName[d.Name] = d
@@ -474,8 +487,8 @@ func c11AtomSub() *engine.Sub {
 	return &engine.Sub{
 		Name:   "atoms-truth",
 		Repeat: true,
-		Rule:   "every comparison atom (5 operators x 6 selectors x 9 literals) and like atom (6 selectors x 6 patterns) as a top-level statement, on every datum {a in 21 values, b in 3, l in 2}: if the selector resolves, Match = PartialMatch = classical truth (same-kind numbers only; an ordering statement with a NaN operand is false; infinite operands of ordering operators and == on NaN are don't-care); if required data is missing Match=false and PartialMatch=true; if optional data is missing both are true; non-trivial = selector resolves",
-		Bound:  func(string) string { return fmt.Sprintf("306 atoms x %d data", len(data)) },
+		Rule:   "every comparison atom (5 operators x 7 selectors (one with a negative slice bound) x 11 literals) and like atom (7 selectors x 6 patterns) as a top-level statement, on every datum {a in 25 values, b in 3, l in 5 (lists of several lengths, so that one parsed selector meets them all)}: if the selector resolves, Match = PartialMatch = classical truth (same-kind numbers only; an ordering statement with a NaN operand is false; infinite operands of ordering operators and == on NaN are don't-care); if required data is missing Match=false and PartialMatch=true; if optional data is missing both are true; non-trivial = selector resolves",
+		Bound:  func(string) string { return fmt.Sprintf("%d atoms x %d data", len(c11Atoms()), len(data)) },
 		Gen: func(tier string, emit func(any) bool) {
 			for _, a := range c11Atoms() {
 				if !emit(&c11Case{S: a}) {
